@@ -44,9 +44,10 @@ Judge(c) ==
 
 Init == i = 1
 Next == i < Len(Cases) /\ i' = i + 1
-Tell == LET c == Cases[i]  j == Judge(c) IN
-        PrintT(ToJson([id |-> c.id, conn |-> j.conn, term |-> j.term]))
 \* sanity of the logged projection itself: the walks from the two frames of the query end at a root within
-\* the number of entries (a parent map with a cycle on them is not a forest: the drivers never ask for one)
-Acyclic == LET c == Cases[i] IN Len(Chain(c, c.a)) <= NPar(c) + 1 /\ Len(Chain(c, c.b)) <= NPar(c) + 1
+\* the number of entries.  A parent map with a cycle on them is not a forest (outside the property; the
+\* harness decides what a cyclic log means for its source) - the walks are capped, so Judge still terminates.
+Acyclic(c) == Len(Chain(c, c.a)) <= NPar(c) + 1 /\ Len(Chain(c, c.b)) <= NPar(c) + 1
+Tell == LET c == Cases[i]  j == Judge(c) IN
+        PrintT(ToJson([id |-> c.id, conn |-> j.conn, term |-> j.term, cyc |-> ~Acyclic(c)]))
 =============================================================================
